@@ -54,7 +54,7 @@ type Case struct {
 	Streams []ops.Hex `json:"streams"` // generated graphics shared by all goroutines
 }
 
-var jobKinds = []string{"render", "transcode", "disassemble", "viewbox", "generate", "resolve", "aspect", "color1", "options", "pathdata", "recorder", "zeroenc", "validate", "keepmeta", "reuseenc", "reuseenc", "manystops", "nestedoption", "logged", "sharedramp", "zerorend", "hardstops"}
+var jobKinds = []string{"options", "arcs", "render", "transcode", "disassemble", "viewbox", "generate", "resolve", "aspect", "color1", "arcs", "pathdata", "recorder", "zeroenc", "validate", "keepmeta", "reuseenc", "reuseenc", "manystops", "nestedoption", "logged", "sharedramp", "zerorend", "hardstops"}
 
 // shared state: one palette array read by everybody
 var sharedPalette = func() [64]color.RGBA {
@@ -244,6 +244,27 @@ func runJob(w *worker, j Job, inputs [][]byte) uint64 {
 			}
 		}
 		return hash(px)
+	case "arcs":
+		// the goroutine's own Renderer drawing arcs of many rotations, radii and flags
+		rr := &rast.Recorder{NoLattice: true}
+		var r render.Renderer
+		r.SetRasterizer(rr, image.Rect(0, 0, 48+j.Param%16, 40))
+		r.Reset(ivg.DefaultViewBox, ivg.DefaultPalette)
+		r.StartPath(0, -20, -20)
+		for i := 0; i < 40; i++ {
+			rot := float32((i*7+j.Param)%120) / 120
+			if i%2 == 0 {
+				r.AbsArcTo(float32(3+i%9), float32(2+(i+j.Param)%11), rot, i%3 == 0, i%4 < 2, float32((i*5+j.Param)%50)-25, float32((i*11)%40)-20)
+			} else {
+				r.RelArcTo(float32(2+(i+j.Param)%7), float32(4+i%5), rot, i%5 == 0, i%4 >= 2, float32(i%9)-4, float32((i+j.Param)%7)-3)
+			}
+		}
+		r.ClosePathEndPath()
+		var acc []byte
+		for _, cl := range rr.Calls {
+			acc = append(acc, []byte(fmt.Sprint(cl.K, cl.F))...)
+		}
+		return hash(acc)
 	case "hardstops":
 		// the shared lists with a hard step and an offset out of order: through the Generator into
 		// an Encoder and a Renderer (first 3, 4 or all 6 stops), and straight into Gradient.Init
